@@ -14,7 +14,8 @@ Stage B: MC_C09_gen prints, per field, the priors and values of IeCases; the dri
          octets back and calls Get again; it also records seeded random cases and folds, per bit field
          and value, the function table over all 256 priors of the touched octet into digests.
 Stage C: TLC validates every event against spec/trace/Trace_C09.tla, which names the class of a mismatch.
-Known on the unchanged tree: the four 10-bit setters clear the six low bits of their second octet."""
+Known on the unchanged tree: the four 10-bit setters clear the six low bits of their second octet.
+Added after seeded rounds 3-5: slice arguments are inverted as soon as the setter returned; elements beyond 255 octets; cold-start ordering processes (one accessor per field shape first, thorough: every accessor); every small value of the length indicator as prior; the element just long enough for the field to exist; max-1 / min+1 values."""
 import json, os, sys
 sys.path.insert(0, os.path.dirname(os.path.dirname(os.path.abspath(__file__))))
 from vlib import *
